@@ -409,6 +409,9 @@ let cbisync_line line =
           match String.split_on_char ':' o with
           | ["WA"; p; c] -> HWrite (SA, zl_of_hex p, zl_of_hex c)
           | ["WB"; p; c] -> HWrite (SB, zl_of_hex p, zl_of_hex c)
+          (* MA / MB: the same write, carrying the opposite side's mtime on the real file system; mtimes are not state of the model *)
+          | ["MA"; p; c] -> HWrite (SA, zl_of_hex p, zl_of_hex c)
+          | ["MB"; p; c] -> HWrite (SB, zl_of_hex p, zl_of_hex c)
           | ["DA"; p] -> HDelete (SA, zl_of_hex p)
           | ["DB"; p] -> HDelete (SB, zl_of_hex p)
           | ["R"] -> HRun
